@@ -119,7 +119,7 @@ const (
 )
 
 type dpCtx struct {
-	label      string // clean | crash | torn-tail-then-append | delete-crash
+	label      string // clean | crash | torn-tail-then-append | delete-crash | remove-photo
 	tornTail   bool   // a crash left a partial record at the end of a pack
 	tornAppend bool   // ... and a later receive appended after it
 	reindexed  bool   // the index was rebuilt from the packs after the crash
@@ -127,6 +127,7 @@ type dpCtx struct {
 	delBody    bool   // its body was zeroed
 	delHdr     bool   // its header was rewritten
 	delRow     bool   // its row was deleted
+	delPrefix  bool   // the state is one the REAL code passes through in program order (photographed)
 	dup        map[string]bool
 }
 
@@ -167,6 +168,23 @@ func allZero(b []byte) bool {
 	return true
 }
 
+// zeroedVersion: observed is truth with some (not none) of its bytes replaced by zero
+func zeroedVersion(observed, truth []byte) bool {
+	if len(observed) != len(truth) {
+		return false
+	}
+	diff := false
+	for i := range truth {
+		if observed[i] != truth[i] {
+			if observed[i] != 0 {
+				return false
+			}
+			diff = true
+		}
+	}
+	return diff
+}
+
 // signature maps a raw failure class in the current history class to the stable signature; only the
 // three recorded defects get their special names, everything else stays "<class>:<label>".
 func (o *dpOracle) signature(class, ref string, observed []byte) string {
@@ -175,12 +193,20 @@ func (o *dpOracle) signature(class, ref string, observed []byte) string {
 	if c.tornAppend && (packReader || c.reindexed) {
 		return "dp-append-after-torn-tail-pack-unparseable"
 	}
-	if c.label == "delete-crash" && ref == c.delRef {
-		// the three steps of a removal (header rewrite, zeroing, row deletion) are not atomic and not synced
-		zeros := len(observed) == len(o.body[ref]) && allZero(observed)
+	if (c.label == "delete-crash" || c.label == "remove-photo") && ref == c.delRef {
+		// the three steps of a removal (header rewrite, zeroing, row deletion) are not atomic and not synced.
+		// delHdr/delBody/delRow are OBSERVED on the state's bytes, delPrefix on the real run.
+		zeroed := zeroedVersion(observed, o.body[ref])
 		switch {
-		case c.delBody && zeros && (class == "fetch-wrong-body" || class == "stream-wrong-body"):
-			// zeros served: through the row that is still there, or by the pack readers (header not rewritten)
+		case c.delBody && zeroed && (class == "fetch-wrong-body" || class == "stream-wrong-body"):
+			if c.delPrefix && !c.delHdr {
+				// the real code, in program order, left a VALID header in front of a (partly) reclaimed body:
+				// not the recorded finding (that one needs the row to outlive the rewritten record, or writes
+				// reordered by a power failure)
+				return "dp-remove-body-reclaimed-under-valid-header:" + class
+			}
+			// zeros served through the row that is still there, or (header not rewritten, reachable only if
+			// the un-synced writes reach the disk out of order) by the pack readers
 			return "dp-delete-crash-zeroed-body-served"
 		case c.delHdr && !c.delRow && (class == "acked-blob-not-streamed" ||
 			(c.reindexed && (class == "acked-blob-lost" || class == "acked-blob-not-enumerated"))):
@@ -559,6 +585,25 @@ func firstN(s []string, n int) []string {
 	return out
 }
 
+// delFlags observes, on the bytes of the current state, what a removal of ref has done so far
+func delFlags(st *dpState, beforeRow, ref string, truth []byte) (hdr, body, row bool) {
+	_, row = st.rows[ref]
+	row = !row
+	var file, off, size int
+	if n, err := fmt.Sscan(beforeRow, &file, &off, &size); n != 3 || err != nil || file >= len(st.packs) {
+		return
+	}
+	p := st.packs[file]
+	k := 1 + len(ref) + 1 + len(fmt.Sprint(size)) + 1
+	if off-k+1 >= 0 && off-k+1 < len(p) {
+		hdr = p[off-k+1] == 'x'
+	}
+	if off+size <= len(p) {
+		body = !bytes.Equal(p[off:off+size], truth)
+	}
+	return
+}
+
 func (g *gen) scenarioDeleteCrash(idx int) {
 	r, rnd := g.r, g.r.R
 	g.newCase(fmt.Sprintf("dp-delete-crash-%d", idx))
@@ -567,21 +612,87 @@ func (g *gen) scenarioDeleteCrash(idx int) {
 	for len(o.withStatus(stAcked)) == 0 {
 		g.dpHistory(o, 1+rnd.Intn(3))
 	}
-	acked := o.withStatus(stAcked)
-	ref := acked[rnd.Intn(len(acked))]
-	x := blobT{ref, o.body[ref]}
-	g.dpSess(o, []string{subDel([]blobT{x})}, [][]blobT{{x}})
+	var x blobT
+	if idx%2 == 0 {
+		// a blob large enough for an interrupted zero fill to be visible (thorough: some span several of the
+		// 32 KiB chunks io.CopyN writes)
+		n := 700 + rnd.Intn(2500)
+		if r.Thorough() && idx%6 == 0 {
+			n = 40000 + rnd.Intn(40000)
+		}
+		body := rnd.Bytes(n)
+		for i := range body {
+			body[i] |= 1 // no zero bytes: every reclaimed byte shows
+		}
+		x = mkBlob(rnd, body)
+		o.add(x)
+		g.dpSess(o, []string{subRecv(x)}, [][]blobT{{x}})
+		g.dpHistory(o, rnd.Intn(2))
+		if o.status[x.ref] != stAcked {
+			g.dpSess(o, []string{subRecv(x)}, [][]blobT{{x}})
+		}
+	} else {
+		acked := o.withStatus(stAcked)
+		ref := acked[rnd.Intn(len(acked))]
+		x = blobT{ref, o.body[ref]}
+	}
+	mode := []string{"half", "punch", "fill"}[idx%3]
+	beforeRow := g.in.dp.rows[x.ref]
+	out := g.op("dp.rm " + mode + " " + x.ref)
+	var nPhotos int
+	if n, _ := fmt.Sscanf(out, "done %d", &nPhotos); n != 1 {
+		g.r.Fail("dp-op-error", "dp.rm answered "+out, "done n", out, append([]string(nil), g.dpPath...))
+		return
+	}
+	o.status[x.ref] = stRemoved
 	g.op("dp.save 0")
 	base := o.snapshot()
 	r.Hit("mech:dp-delete-header-rewrite-zero-then-row")
+	r.Hit("photo:mode-" + mode)
 	b2i := map[bool]int{false: 0, true: 1}
+	type flags struct{ hdr, body, row bool }
+	reached := map[flags]bool{{false, false, false}: true}
+
+	// (1) the states the REAL code passes through: the pack files photographed at its write boundaries
+	for i := 0; i < nPhotos; i++ {
+		g.op("dp.restore 0")
+		oc := base.snapshot()
+		g.op(fmt.Sprintf("dp.photo %d", i))
+		hdr, body, row := delFlags(g.in.dp, beforeRow, x.ref, x.body)
+		reached[flags{hdr, body, row}] = true
+		if i < nPhotos-1 {
+			oc.status[x.ref] = stMaybe // RemoveBlobs had not returned
+		}
+		oc.ctx.label, oc.ctx.delRef, oc.ctx.delPrefix = "remove-photo", x.ref, true
+		oc.ctx.delHdr, oc.ctx.delBody, oc.ctx.delRow = hdr, body, row
+		r.Hit(fmt.Sprintf("photo:h%d-b%d-r%d", b2i[hdr], b2i[body], b2i[row]))
+		if body && !allZero(g.photoBody(beforeRow)) {
+			r.Hit("photo:partial-zero-fill")
+		}
+		r.Distinct("dp:" + g.op("dp.dump"))
+		g.dpRead(oc) // restart with the index as the crash left it: Fetch/Stat/Enumerate/StreamBlobs
+		g.op("dp.save 1")
+		g.dpReindex(oc.snapshot(), "fresh") // restart with the index rebuilt from the pack files alone
+		g.op("dp.restore 1")
+		if i%2 == 1 || r.Thorough() {
+			g.dpReindex(oc.snapshot(), "over")
+			g.op("dp.restore 1")
+		}
+		g.continueAfterCrash(oc, x, i%2 == 0 || rnd.Chance(50))
+	}
+
+	// (2) all 8 subsets of {header rewritten, body reclaimed, row deleted}: the ones not photographed above
+	// are reachable only if the un-synced writes reach the disk out of program order
 	for m := 0; m < 8; m++ {
 		hdr, body, row := m&1 != 0, m&2 != 0, m&4 != 0
 		g.op("dp.restore 0")
 		oc := base.snapshot()
 		g.op(fmt.Sprintf("dp.crash d %d %d %d", b2i[hdr], b2i[body], b2i[row]))
 		oc.status[x.ref] = stMaybe
-		oc.ctx.label, oc.ctx.delRef, oc.ctx.delBody, oc.ctx.delHdr, oc.ctx.delRow = "delete-crash", x.ref, body, hdr, row
+		oh, ob, or := delFlags(g.in.dp, beforeRow, x.ref, x.body)
+		oc.ctx.label, oc.ctx.delRef = "delete-crash", x.ref
+		oc.ctx.delHdr, oc.ctx.delBody, oc.ctx.delRow = oh, ob, or
+		oc.ctx.delPrefix = reached[flags{oh, ob, or}]
 		r.Hit(fmt.Sprintf("crash:delete-h%d-b%d-r%d", b2i[hdr], b2i[body], b2i[row]))
 		r.Distinct("dp:" + g.op("dp.dump"))
 		g.dpRead(oc)
@@ -594,8 +705,17 @@ func (g *gen) scenarioDeleteCrash(idx int) {
 		}
 	}
 	if idx == 0 {
-		r.Sample(map[string]any{"kind": "dp-delete-crash", "blob": x.ref, "states": 8})
+		r.Sample(map[string]any{"kind": "dp-delete-crash", "blob": x.ref, "size": len(x.body), "mode": mode, "photographed_states": nPhotos, "subset_states": 8})
 	}
+}
+
+// photoBody: the bytes of the current state at the extent of a row
+func (g *gen) photoBody(row string) []byte {
+	var file, off, size int
+	if n, err := fmt.Sscan(row, &file, &off, &size); n != 3 || err != nil || file >= len(g.in.dp.packs) || off+size > len(g.in.dp.packs[file]) {
+		return nil
+	}
+	return g.in.dp.packs[file][off : off+size]
 }
 
 func (g *gen) scenarioClean(idx int) {
@@ -1086,7 +1206,10 @@ func Run(r *hk.Run) {
 	r.Res.Rule = "cases: diskpacked (real store via CreateStorage on temp dirs; every op = materialise state, open, run, close, read back): " +
 		"(a) random receive/remove history, one more receive, then EVERY chosen crash point of it (kept bytes 0,1,hdr-1,hdr,hdr+1,total-1 + 8 random; " +
 		"thorough: every byte for bodies <= 64) x row/no row x rolled-over pack/not, each followed by restart, Fetch/Stat/Enumerate/StreamBlobs of the whole universe, " +
-		"Reindex from the packs alone, further receives/removes and a second Reindex; (b) all 8 subset states of a crashed removal, same follow-up; " +
+		"Reindex from the packs alone, further receives/removes and a second Reindex; (b) a removal run on the real code with the pack files PHOTOGRAPHED at its real write boundaries " +
+		"(entry/exit of delete's body reclaim via the verif hook VerifSetPunchHole: real hole punch, delete's own zero fill, or a half-done zero fill of a blob of 0.7-80 KiB; entry to CommitBatch; return), " +
+		"every photo restarted with the index as left, with Reindex fresh/over, with StreamBlobs, then further operations; plus all 8 subset states of {header rewritten, body reclaimed, row deleted}, " +
+		"classified as program-order or reorder-only by what was photographed; " +
 		"(c) crash-free histories with roll-over, duplicate receive, hand-truncated pack; (d) malformed packs (model vs code only). " +
 		"files store over the recording VFS: (e) every prefix of the recorded call log x un-synced data dropped/kept/partly kept, read back through Fetch/Stat/Enumerate, retry; " +
 		"(f) the same with each VFS call failing; (g) crashed removals; (h) stray/temp files under enumerate. " +
